@@ -64,7 +64,7 @@ func realLikeLiteral(s string) (string, error) {
 	}
 	const pre = "like(samples.string, "
 	i := strings.Index(q, pre)
-	j := strings.LastIndex(q, ") = 1")
+	j := strings.LastIndex(q, ")) == (1))")
 	if i < 0 || j < i {
 		return "", fmt.Errorf("unexpected rendering %q", q)
 	}
